@@ -305,7 +305,7 @@ func (handler *Handler) ProxyClientConnection(ctx context.Context, errCh chan<- 
 						"from database")
 					handler.logger.Debugln("Send error to db")
 
-					if err := handler.sendClientError(QueryExecutionWasInterrupted, packet); err != nil {
+					if err := handler.sendClientErrorResponse(QueryExecutionWasInterrupted, packet); err != nil {
 						handler.logger.WithError(err).WithField(logging.FieldKeyEventCode, logging.EventCodeErrorResponseConnectorCantWriteToClient).
 							Debugln("Can't write response with error to client")
 					}
@@ -402,7 +402,7 @@ func (handler *Handler) ProxyClientConnection(ctx context.Context, errCh chan<- 
 			if err := handler.acracensor.HandleQuery(query); err != nil {
 				censorSpan.End()
 				clientLog.WithError(err).WithField(logging.FieldKeyEventCode, logging.EventCodeErrorCensorQueryIsNotAllowed).Errorln("Error on AcraCensor check")
-				if err := handler.sendClientError(QueryExecutionWasInterrupted, packet); err != nil {
+				if err := handler.sendClientErrorResponse(QueryExecutionWasInterrupted, packet); err != nil {
 					handler.logger.WithError(err).WithField(logging.FieldKeyEventCode, logging.EventCodeErrorResponseConnectorCantWriteToClient).
 						Errorln("Can't write response with error to client")
 				}
@@ -1030,6 +1030,13 @@ func (handler *Handler) ProxyDatabaseConnection(ctx context.Context, errCh chan<
 			}
 		}
 	}
+}
+
+// sendClientErrorResponse answers a packet received from the client with an `QueryInterruptedError`:
+// the answer to a packet carries the sequence number that follows it
+func (handler *Handler) sendClientErrorResponse(msg string, request *Packet) error {
+	request.header[SequenceIDIndex]++
+	return handler.sendClientError(msg, request)
 }
 
 // sendClientError sends an `QueryInterruptedError` with a custom message
